@@ -4,7 +4,7 @@
 From Coq Require Import List Bool ZArith.
 From Coq.Strings Require Import Byte.
 Import ListNotations.
-From SV Require Import Text G_c03 C03_Model C03_Lemmas C03_Fts C03_Hits C03_Chain C03_Write C03_Cli C03_Session.
+From SV Require Import Text G_c03 C03_Model C03_Lemmas C03_Fts C03_Hits C03_Chain C03_Write C03_Cli C03_Session C03_Resolve.
 
 (* the modelled chains are the regenerated priority lists FMTS_ALL, which start with FMTS *)
 Theorem C03_chains_pinned :
@@ -384,6 +384,86 @@ Example C03_witness_session :
     [VL [VS (bs "stockholm"%bs); VI 0]; VL [VS (bs "stockholm"%bs); VI 33]; VI 33; VL [VNone; VI 33]; VL [VS (bs "stockholm"%bs); VI 33];
      VL [VS (bs "stockholm"%bs); VI 57]; VE (bs "OSError"%bs); VS []].
 Proof. exact witness_session. Qed.
+
+(* ---- the recursion of _resolve_fname (pattern -> files, archive -> <tmpdir>/**/*.*, gzip, plain) over a file-system oracle *)
+(* the name decision as a first-match table: stdin > URL > pattern > archive > gzip > plain *)
+Theorem C03_resolve_is_table : forall isglob dd ex s a,
+  resolve_g isglob dd ex (FStr s) a = first_row (resolve_rows isglob a (data_name dd s)) /\
+  resolve_g true dd ex (FStr s) a = resolve dd ex (FStr s) a.
+Proof. exact (fun isglob dd ex s a => conj (resolve_is_table isglob dd ex s a) (resolve_g_true dd ex (FStr s) a)). Qed.
+Print Assumptions C03_resolve_is_table.
+
+Theorem C03_resolve_url_first : forall isglob dd ex s a,
+  startswith (bs "!data/"%bs) s = false -> str_eqb s (bs "-"%bs) = false -> is_url s = true ->
+  exists sub, resolve_g isglob dd ex (FStr s) a = DUrl (url_basename s) sub.
+Proof. exact resolve_url_first. Qed.
+Print Assumptions C03_resolve_url_first.
+
+(* a name found by a pattern is never expanded again *)
+Theorem C03_matched_name_never_globbed : forall dd ex f a pat, resolve_g false dd ex f a <> DGlob pat.
+Proof. exact matched_name_never_globbed. Qed.
+Print Assumptions C03_matched_name_never_globbed.
+
+(* once the recursion has finished, more fuel changes nothing *)
+Theorem C03_resolve_run_fuel : forall j k fs dd ex g name a, resolve_run k fs dd ex g name a <> RFuel ->
+  resolve_run (k + j) fs dd ex g name a = resolve_run k fs dd ex g name a.
+Proof. exact resolve_run_fuel. Qed.
+Print Assumptions C03_resolve_run_fuel.
+
+(* the four branches; the archive option reaches the files a pattern finds but not the content of an archive *)
+Theorem C03_resolve_run_branches : forall k fs dd ex g name a,
+  (forall n, resolve_g g dd ex (FStr name) a = DPlain n -> resolve_run (S k) fs dd ex g name a = ROk [LFile n]) /\
+  (forall n d, resolve_g g dd ex (FStr name) a = DGz n -> fs_gunzip fs n = Some d -> resolve_run (S k) fs dd ex g name a = ROk [LData d]) /\
+  (forall n fmt tmp, resolve_g g dd ex (FStr name) a = DArchive n fmt -> fs_unpack fs n fmt = Some tmp ->
+     resolve_run (S k) fs dd ex g name a = resolve_run k fs dd ex true (tmp ++ glob_tail) ANone) /\
+  (forall pat, resolve_g g dd ex (FStr name) a = DGlob pat -> fs_glob fs pat <> [] ->
+     resolve_run (S k) fs dd ex g name a = rconcat (map (fun n => resolve_run k fs dd ex false n a) (fs_glob fs pat))) /\
+  (forall pat, resolve_g g dd ex (FStr name) a = DGlob pat -> fs_glob fs pat = [] -> resolve_run (S k) fs dd ex g name a = RErr).
+Proof. exact resolve_run_branches. Qed.
+Print Assumptions C03_resolve_run_branches.
+
+(* a pattern over simple files: every match is read, in the order glob reports them *)
+Theorem C03_resolve_run_glob_concat : forall k fs dd ex g pat a,
+  resolve_g g dd ex (FStr pat) a = DGlob pat -> fs_glob fs pat <> [] ->
+  forallb (simple_name dd ex a) (fs_glob fs pat) = true ->
+  resolve_run (S (S k)) fs dd ex g pat a = ROk (map LFile (fs_glob fs pat)).
+Proof. exact resolve_run_glob_concat. Qed.
+Print Assumptions C03_resolve_run_glob_concat.
+
+(* a flat archive: every member is read exactly once *)
+Theorem C03_resolve_run_flat_archive : forall k fs dd ex g name a n fmt tmp,
+  resolve_g g dd ex (FStr name) a = DArchive n fmt -> fs_unpack fs n fmt = Some tmp ->
+  resolve_g true dd ex (FStr (tmp ++ glob_tail)) ANone = DGlob (tmp ++ glob_tail) ->
+  fs_glob fs (tmp ++ glob_tail) <> [] ->
+  forallb (simple_name dd ex ANone) (fs_glob fs (tmp ++ glob_tail)) = true ->
+  resolve_run (S (S (S k))) fs dd ex g name a = ROk (map LFile (fs_glob fs (tmp ++ glob_tail))).
+Proof. exact resolve_run_flat_archive. Qed.
+Print Assumptions C03_resolve_run_flat_archive.
+
+(* the fuelled function computes exactly the declarative reading `resolves`, for any nesting depth *)
+Theorem C03_resolve_run_sound : forall k fs dd ex g name a l,
+  resolve_run k fs dd ex g name a = ROk l -> resolves fs dd ex g name a l.
+Proof. exact resolve_run_sound. Qed.
+Print Assumptions C03_resolve_run_sound.
+
+Theorem C03_resolve_run_complete : forall fs dd ex g name a l,
+  resolves fs dd ex g name a l -> exists k, forall k', k <= k' -> resolve_run k' fs dd ex g name a = ROk l.
+Proof. exact resolve_run_complete. Qed.
+Print Assumptions C03_resolve_run_complete.
+
+Theorem C03_resolves_deterministic : forall fs dd ex g name a l1 l2,
+  resolves fs dd ex g name a l1 -> resolves fs dd ex g name a l2 -> l1 = l2.
+Proof. exact resolves_deterministic. Qed.
+Print Assumptions C03_resolves_deterministic.
+
+Example C03_witness_resolve_run :
+  resolve_run 6 demo_fs [] [] true (bs "d/*"%bs) ANone =
+    ROk [LFile (bs "d/a.fa"%bs); LData (bs "B"%bs); LFile (bs "d/c[1].fa"%bs); LData (bs "M"%bs); LFile (bs "<<d/x.zip>/in.tar>/deep.fa"%bs)] /\
+  resolve_run 3 demo_fs [] [] true (bs "d/*"%bs) ANone = RFuel /\
+  resolve_run 9 demo_fs [] [] true (bs "blob"%bs) (AStr (bs "zip"%bs)) = RErr /\
+  resolve_run 9 demo_fs [] [] true (bs "nothing*"%bs) ANone = RErr /\
+  simple_name [] [] ANone (bs "d/c[1].fa"%bs) = true.
+Proof. exact witness_resolve_run. Qed.
 
 (* non-vacuity: concrete contents satisfying the hypotheses, and the documented BLAST / MMseqs2 discriminator at work *)
 Example C03_witness_shapes :
